@@ -430,7 +430,34 @@ bool count_field(const std::string &s, size_t i)
     return (unsigned char)s[i] < 64;
 }
 
-void edit(std::string &s, FuzzedDataProvider &fdp, fz::Stats &st)
+// edits are driven by a splitmix64 stream seeded from 8 unit bytes (the FuzzedDataProvider is usually exhausted
+// by the op-program, which would make every edit parameter its minimum)
+struct Rng {
+    uint64_t x;
+    uint64_t next()
+    {
+        uint64_t z = (x += 0x9e3779b97f4a7c15ull);
+        z = (z ^ (z >> 30)) * 0xbf58476d1ce4e5b9ull;
+        z = (z ^ (z >> 27)) * 0x94d049bb133111ebull;
+        return z ^ (z >> 31);
+    }
+    template <class T>
+    T ConsumeIntegralInRange(T lo, T hi)
+    {
+        return (T)(lo + (T)(next() % ((uint64_t)(hi - lo) + 1)));
+    }
+    template <class T>
+    T ConsumeIntegral()
+    {
+        return (T)next();
+    }
+    bool ConsumeBool()
+    {
+        return next() & 1;
+    }
+};
+
+void edit(std::string &s, Rng &fdp, fz::Stats &st)
 {
     if (s.size() < 8)
         return;
@@ -672,6 +699,7 @@ extern "C" int LLVMFuzzerTestOneInput(const uint8_t *data, size_t size)
     st.count("unit_structured");
     FuzzedDataProvider fdp(data + 1, size - 1);
     unsigned nedits = fdp.ConsumeIntegralInRange<unsigned>(0, 4);
+    Rng rng{fdp.ConsumeIntegral<uint64_t>()};
     B obj;
     try {
         obj = build(fdp);
@@ -687,7 +715,7 @@ extern "C" int LLVMFuzzerTestOneInput(const uint8_t *data, size_t size)
         return 0;
     }
     for (unsigned i = 0; i < nedits; i++)
-        edit(bytes, fdp, st);
+        edit(bytes, rng, st);
     if (nedits == 0)
         st.count("edit_none");
     run_loads(bytes, "structured", data, size);
